@@ -130,7 +130,7 @@ LOG_RULE = (MEM_RULE + " || dirty log: SET_LOG_BASE with windows from too small 
             "log file is read back (touched words, guard bytes before and after the window) and compared with Spec/MemSpec.v's own page-set oracle")
 reg(id="C15", props="Props/C15.v", proof_files=["Proofs/LogProofs.v", "Proofs/MemProofs.v"], families=[Dmn()], rule=LOG_RULE, trusted_base=MEM_TB,
     assumptions=DMN_ASSUME + ["AtomicU8::fetch_or is atomic (platform)"])
-reg(id="C05", props="Props/C05.v", proof_files=["Proofs/C05Proofs.v", "Proofs/C20Proofs.v", "Proofs/MemProofs.v"], families=[Be(), Dmn()],
+reg(id="C05", props="Props/C05.v", proof_files=["Proofs/C05Proofs.v", "Proofs/C20Proofs.v", "Proofs/MemProofs.v"], families=[Be(), Dmn(), Seg()],
     rule=BE_RULE + " (every recorded handler call is judged by Spec.BeSpec.valid_call_b; a panic of the server is an observation no model run produces) || "
          + MEM_RULE + " || adversarial histories: a running daemon receives well-typed messages whose 64-bit fields sit on the boundaries (0, 1, 2^12+-1, 2^32+-1, 2^48, "
          "2^63+-1, 2^64-4096.., 2^64-1): memory tables with wrapping / huge / unaligned regions, ring addresses above a user range at the top of the address space, "
